@@ -594,10 +594,32 @@ def run_case(R, seed, idx, tier):
             probe('after_end_action')
         if sm.get('count_exc') not in (None, 'KeyboardInterrupt'):
             probe('count_exc_' + sm['count_exc'])
+            if sm['driver'] == 'api':
+                converted.append(sm)
         if sm.get('nmark', 0) > 1:
             probe('markers>1')
         if sm.get('unraisable'):
             probe('unraisable_seen')
+
+    converted = []      # executions in which count() let out something other than KeyboardInterrupt
+
+    def confirm_converted(ref_):
+        """count() turned the interrupt into another exception.  Through the API the record can still be rendered;
+        whether the user still gets a report is decided by the package's own driver: repeat the instant through
+        Droop.main, which reports main-diverges if the exception escapes it."""
+        if R.Droop is None:
+            return
+        seen = set()
+        for sm in list(converted):
+            key = (sm['event'], sm['count_exc'], (sm['fired'] or {}).get('site'))
+            if key in seen or len(seen) >= 6:
+                continue
+            seen.add(key)
+            res = run_faulted(R, text, o, sm['event'], sm['k'], 'raise', (), 'main', {'report', 'dump', 'json'}, raw)
+            out['steps'] += sm['k']
+            probe('converted_interrupt_confirmed_through_driver')
+            account(summarise(ref_, res))
+        del converted[:]
 
     def sweep(ref_, event, schedule, budget):
         """execute a schedule {k: [(mech, order)...]}: early instants by plain re-run (cheaper than a fork, whose
@@ -662,6 +684,7 @@ def run_case(R, seed, idx, tier):
             out['dropped_viol'] = len(out['viol'])
             out['viol'] = []
             return out
+    confirm_converted(ref)
     kmid = ks[len(ks) // 2]
     out['sample'] = dict(blt=text, options=o, event='line', k=kmid, mech='raise',
                          order=list(ORDERS[(kmid + salt) % len(ORDERS)]), driver='api',
@@ -706,6 +729,7 @@ def run_case(R, seed, idx, tier):
                     out['dropped_viol'] = len(out['viol'])
                     out['viol'] = []
                     return out
+            confirm_converted(ref_op)
             probe('opcode_cases')
         else:
             probe('opcode_ref_unusable')
